@@ -38,6 +38,17 @@ def main(tier):
         if j["gen"] == "random":
             j["fulldiag"] = 1
         jobs.append(j)
+    # the 2-D blocked supernode-panel update (p?gstrf_bmod2D) is only taken for supernodes with >= sp_ienv(5) columns and >= sp_ienv(4)
+    # rows below the diagonal block (defaults 100 / 200): small cut-offs and wide supernodes on dense-ish matrices reach it
+    for i in range(16 if quick else 150):
+        j = pipe.random_job(rng, 3000 + i, out, nmax=60, threads=(1, 2, 4), kinds=("random", "banded"))
+        n = rng.randint(24, 60 if quick else 120)
+        for k in ("par", "lowfill", "last"):
+            j.pop(k, None)
+        j.update(n=n, dens=rng.choice([300, 500, 800]), fulldiag=1, kl=rng.randint(4, 10), ku=rng.randint(4, 10), order=rng.choice([-1, 1, 2]),
+                 ps=rng.choice([4, 8]), relax=rng.choice([2, 4, 6]), maxsuper=rng.choice([8, 16, 32]), ie4=rng.choice([4, 5, 8]), ie5=rng.choice([4, 5, 6]),
+                 u=rng.choice(["0.1", "1.0"]), vstyle=rng.choice([0, 3]))
+        jobs.append(j)
     # forced pivot orders on small patterns (every row order is a legal request at u = 0)
     pats = []
     for n in (2, 3, 4):
